@@ -92,18 +92,66 @@ def dedup : List String → List String
   | [] => []
   | x :: r => if r.contains x then dedup r else x :: dedup r
 
-def srv (f : Fields) : String :=
+/-- session operations of the scripted checker: `-` = none, else `.`-separated `s<id>` (SetID) / `p`
+    (read the peer and the session). -/
+def parseOps (s : String) : Option (List CkOp) :=
+  if s == "-" || s == "" then some [] else
+  (s.splitOn ".").mapM fun t =>
+    if t == "p" then some CkOp.peek
+    else if t.startsWith "s" then (t.drop 1).toNat?.map CkOp.setId
+    else none
+
+/-- ids of the other live sessions of the peer: `-` or comma-separated. -/
+def parseNats (s : String) : Option (List Nat) :=
+  if s == "-" || s == "" then some [] else (s.splitOn ",").mapM String.toNat?
+
+def dedupNat : List Nat → List Nat
+  | [] => []
+  | x :: r => x :: (dedupNat r).filter (· != x)
+
+def insertNat (x : Nat) : List Nat → List Nat
+  | [] => [x]
+  | y :: r => if x ≤ y then x :: y :: r else y :: insertNat x r
+
+def showOwner : Option Nat → String
+  | none => "-"
+  | some 0 => "s"
+  | some (o + 1) => s!"o{o}"
+
+def joinOr (l : List String) : String := if l.isEmpty then "-" else ",".intercalate l
+
+/-- what the hub says at the end about every id the connection ever had, what the checker's reads
+    returned, how many sessions are listed, which other sessions were closed by `hub.set`. -/
+def showHub (s : St) : String :=
+  let ids := dedupNat s.ids
+  let ends := ids.map fun id => s!"{id}:{showOwner (s.hub.get id)}"
+  let peeks := s.peeks.map fun (b, n) => s!"{b2s b}:{n}"
+  let kicked := (s.kicked.foldr insertNat []).map toString
+  s!"ids={joinOr (s.ids.map toString)} peeks={joinOr peeks} end={joinOr ends} cnt={s.hub.length} kicked={joinOr kicked}"
+
+def srvWith (ext : Bool) (f : Fields) : String :=
   match f.nat "lis", f.nat "nrecv", f.nat "prop", (f.get "verdict").bind parseVerdict,
-        f.hex "bytes", f.nat "early", (f.get "fin").bind parseFin, f.nat "unk", f.hex "tail" with
-  | some lis, some nrecv, some prop, some v, some bytes0, some early, some fin, some unk, some tail =>
+        f.hex "bytes", f.nat "early", (f.get "fin").bind parseFin, f.nat "unk", f.hex "tail",
+        parseOps ((f.get "pre").getD "-"), parseOps ((f.get "post").getD "-"),
+        parseNats ((f.get "others").getD "-") with
+  | some lis, some nrecv, some prop, some v, some bytes0, some early, some fin, some unk, some tail,
+    some pre, some post, some others =>
     let bytes := bytes0 ++ tail
     let mk (pcode : Int) : List String :=
       let items := itemsOf (unk != 0) pcode (bytes.length + 1) bytes
-      let c : Case := { lis := lis != 0, script := ⟨nrecv, prop != 0, v⟩, items,
+      let c : Case := { lis := lis != 0, others, script := ⟨nrecv, prop != 0, v, pre, post⟩, items,
                         early := early != 0, fin }
-      lines (runCase c) (early != 0)
+      let s := runCase c
+      if ext then (lines s (early != 0)).map fun l => l ++ " " ++ showHub s
+      else lines s (early != 0)
     " || ".intercalate (dedup (mk 400 ++ mk 102))
-  | _, _, _, _, _, _, _, _, _ => "bad-case"
+  | _, _, _, _, _, _, _, _, _, _, _, _ => "bad-case"
+
+def srv (f : Fields) : String := srvWith false f
+
+/-- the checker performs session operations (`pre` / `post`), other sessions are live on the peer
+    (`others`); the observation also lists the hub under every id the connection ever had. -/
+def ck (f : Fields) : String := srvWith true f
 
 /-- bearer side against a scripted raw server: `mode` = reply | close | silent | brk. -/
 def dialLine (f : Fields) : String :=
@@ -132,7 +180,7 @@ def e2e (f : Fields) : String :=
     let code := verdictCode v
     let items : List Item := [.frame { kind := .authCall, seq := 1 }] ++
       (if code == 0 then [.frame { kind := .call, seq := 2 }] else [])
-    let s := runCase { script := ⟨1, true, v⟩, items, fin := .close }
+    let s := runCase { script := { nrecv := 1, propagate := true, verdict := v }, items, fin := .close }
     let hook := (sendOnce false 0 (.frame { kind := .authReply, code })).2
     let d := dial hook
     let outs := match s.out with
@@ -145,6 +193,6 @@ end C16
 
 /-- case kinds served by this module. -/
 def handlersC16 : List (String × (Fields → String)) :=
-  [("c16srv", C16.srv), ("c16dial", C16.dialLine), ("c16e2e", C16.e2e)]
+  [("c16srv", C16.srv), ("c16ck", C16.ck), ("c16dial", C16.dialLine), ("c16e2e", C16.e2e)]
 
 end Teleport.Drv
